@@ -145,10 +145,15 @@ struct LyingIter {
     n: usize,
     lower: usize,
     upper: Option<usize>,
+    /// panic when this many items are left (usize::MAX: never)
+    panic_at: usize,
 }
 impl Iterator for LyingIter {
     type Item = u8;
     fn next(&mut self) -> Option<u8> {
+        if self.n == self.panic_at {
+            panic!("lying iterator");
+        }
         if self.n == 0 {
             None
         } else {
@@ -298,7 +303,7 @@ fn consume(name: &str, script: &[Lie], arg: usize) -> Result<String, ()> {
 fn report(case: &str, r: Result<String, ()>, a1_before: usize) {
     let evs = ledger::drain_events();
     let bad: Vec<String> = evs.iter().filter(|e| e.bad != 0).map(|e| format!("bad={}", e.bad)).collect();
-    let leak = ledger::A1_TRACKED_LIVE.load(Ordering::SeqCst) as i64 - a1_before as i64;
+    let leak = ledger::tracked_live_total() as i64 - a1_before as i64;
     let neighbour = matches!(&r, Err(())) && false;
     let _ = neighbour;
     println!(
@@ -327,7 +332,7 @@ pub fn run(args: &[String]) -> i32 {
     if args.first().map(|s| s.as_str()) == Some("one") && args.len() >= 4 {
         let script = parse_script(&args[2]);
         let arg: usize = args[3].parse().unwrap_or(0);
-        let a1 = ledger::A1_TRACKED_LIVE.load(Ordering::SeqCst);
+        let a1 = ledger::tracked_live_total();
         let _ = ledger::drain_events();
         ledger::track(true);
         let r = consume(&args[1], &script, arg);
@@ -349,7 +354,7 @@ pub fn run(args: &[String]) -> i32 {
         let arg = *rng.pick(&[0usize, 1, 4, 8, 9, 16, 64, 300]);
         let case = format!("{} {} {}", name, show(&script), arg);
         println!("adv-try {}", case);
-        let a1 = ledger::A1_TRACKED_LIVE.load(Ordering::SeqCst);
+        let a1 = ledger::tracked_live_total();
         let _ = ledger::drain_events();
         ledger::track(true);
         let r = consume(name, &script, arg);
@@ -363,7 +368,7 @@ pub fn run(args: &[String]) -> i32 {
         for (la, lb_) in [(4usize, 4096usize), (4096, 4), (0, 64), (64, 0)] {
             OWNER_ASREF.store(0, Ordering::SeqCst);
             OWNER_DROP.store(0, Ordering::SeqCst);
-            let a1 = ledger::A1_TRACKED_LIVE.load(Ordering::SeqCst);
+            let a1 = ledger::tracked_live_total();
             let o = LyingOwner { a: vec![1u8; la], b: vec![2u8; lb_], mode };
             let pa = (o.a.as_ptr() as usize, o.a.len());
             let pb = (o.b.as_ptr() as usize, o.b.len());
@@ -402,20 +407,58 @@ pub fn run(args: &[String]) -> i32 {
     }
     // iterators with wrong size hints (kept small: a huge lower bound only makes reserve abort/panic)
     for (n, lower, upper) in [(10usize, 0usize, Some(0usize)), (10, 100, Some(3)), (0, 50, None), (300, 1, Some(1)), (5, 5, Some(2))] {
-        let a1 = ledger::A1_TRACKED_LIVE.load(Ordering::SeqCst);
+        let a1 = ledger::tracked_live_total();
         let _ = ledger::drain_events();
         ledger::track(true);
         let r = catch_unwind(AssertUnwindSafe(|| {
             let mut m = BytesMut::with_capacity(2);
-            m.extend(LyingIter { n, lower, upper });
-            let f: BytesMut = LyingIter { n, lower, upper }.collect();
-            let b: Bytes = LyingIter { n, lower, upper }.collect();
+            m.extend(LyingIter { n, lower, upper, panic_at: usize::MAX });
+            let f: BytesMut = LyingIter { n, lower, upper, panic_at: usize::MAX }.collect();
+            let b: Bytes = LyingIter { n, lower, upper, panic_at: usize::MAX }.collect();
             format!("len {} {} {}", m.len(), f.len(), b.len())
         }));
         ledger::track(false);
         let r2 = r.as_ref().map(|s| s.clone()).map_err(|_| ());
         drop(r);
         report(&format!("extend n={} hint={}:{:?}", n, lower, upper).replace(' ', "_"), r2, a1);
+    }
+    // iterators that panic part-way (after the destination had to grow, or before): the destination must stay a valid
+    // value through the unwind — dropped exactly once, nothing it owned freed twice or lost
+    for (cap0, pre, n, at, lower) in [(0usize, 0usize, 40usize, 10usize, 0usize), (2, 2, 300, 100, 1), (16, 3, 64, 63, 64), (8, 8, 20, 0, 5), (4, 1, 200, 199, 0),
+                                      (64, 10, 500, 250, 2), (1, 0, 9, 3, 100)] {
+        for kind in ["extend_vec", "extend_adv", "extend_arc", "collect_mut", "collect_bytes"] {
+            let a1 = ledger::tracked_live_total();
+            let _ = ledger::drain_events();
+            ledger::track(true);
+            let r = catch_unwind(AssertUnwindSafe(|| {
+                let it = LyingIter { n, lower, upper: None, panic_at: at };
+                match kind {
+                    "collect_mut" => format!("len {}", it.collect::<BytesMut>().len()),
+                    "collect_bytes" => format!("len {}", it.collect::<Bytes>().len()),
+                    _ => {
+                        let mut m = BytesMut::with_capacity(cap0 + 4);
+                        m.extend_from_slice(&vec![7u8; pre + 3]);
+                        let mut keep = None;
+                        if kind == "extend_adv" {
+                            m.advance(2);
+                        } else if kind == "extend_arc" {
+                            keep = Some(m.split_to(1));
+                        }
+                        let r2 = catch_unwind(AssertUnwindSafe(|| m.extend(it)));
+                        // the destination is still usable after the unwind
+                        let ok = m.iter().take(1).all(|b| *b == 7);
+                        m.extend_from_slice(b"xyz");
+                        let l = m.len();
+                        drop(keep);
+                        format!("len {} unwound={} head_ok={}", l, r2.is_err() as u8, ok as u8)
+                    }
+                }
+            }));
+            ledger::track(false);
+            let r2 = r.as_ref().map(|s| s.clone()).map_err(|_| ());
+            drop(r);
+            report(&format!("iterpanic kind={} cap={} pre={} n={} at={} lower={}", kind, cap0, pre, n, at, lower).replace(' ', "_"), r2, a1);
+        }
     }
     println!("advend violations={}", ledger::VIOLATIONS.load(Ordering::SeqCst));
     0
